@@ -3,11 +3,14 @@
 package verifharness
 
 import (
+	"bufio"
 	"bytes"
 	"context"
 	"errors"
 	"fmt"
 	"io"
+	"net"
+	"net/http"
 	"net/http/httptest"
 	"sort"
 	"strings"
@@ -121,6 +124,39 @@ type htRun struct {
 	annConns []goat.RpcReadWriter
 	steps    []string
 	desc     []string
+	big      *bigRef // the one large body of the scenario, if any (shared by the Coq terms through a let)
+}
+
+var trEdgeEnvs []genEnv // genEdgeEnvelopes, built once (a megabyte each)
+
+func trEdge(k int) genEnv {
+	if trEdgeEnvs == nil {
+		trEdgeEnvs = genEdgeEnvelopes(newRand(1913))
+	}
+	return trEdgeEnvs[k]
+}
+
+// slowReader hands out its bytes in small, uneven pieces: a body of unknown length arriving in chunks
+type slowReader struct {
+	b []byte
+	n int
+}
+
+func (s *slowReader) Read(p []byte) (int, error) {
+	if len(s.b) == 0 {
+		return 0, io.EOF
+	}
+	s.n++
+	k := 1 + (s.n*7919)%4093
+	if k > len(s.b) {
+		k = len(s.b)
+	}
+	if k > len(p) {
+		k = len(p)
+	}
+	copy(p, s.b[:k])
+	s.b = s.b[k:]
+	return k, nil
 }
 
 func (h *htRun) connIndex(rw goat.RpcReadWriter) int {
@@ -173,14 +209,40 @@ func runHttp(t *testing.T, interval, timeout int, acts []htAct) (h *htRun, leake
 				q := len(h.qDone)
 				h.qDone = append(h.qDone, false)
 				h.mu.Unlock()
-				body, term := postBody(a.Kind, q)
+				kind, chunked := a.Kind, false
+				if strings.HasPrefix(kind, "chunked:") { // the same bytes as a body of unknown length, in pieces
+					kind, chunked = strings.TrimPrefix(kind, "chunked:"), true
+				}
+				var body []byte
+				var term string
+				if strings.HasPrefix(kind, "edge:") { // an envelope of the upper end of the body range from source "a"
+					var k int
+					fmt.Sscanf(kind, "edge:%d", &k)
+					g := trEdge(k)
+					e := proto.Clone(g.E).(*Rpc)
+					e.Id = uint64(1000 + q)
+					var err error
+					if body, err = proto.Marshal(e); err != nil {
+						panic(err)
+					}
+					h.mu.Lock()
+					h.big = g.Big
+					h.mu.Unlock()
+					term = "HPost (BBytes " + coqBytesBig(body, g.Big) + ")"
+				} else {
+					body, term = postBody(kind, q)
+				}
 				coq = []string{term}
 				req := httptest.NewRequest("POST", "http://goat.test/", bytes.NewReader(body))
-				switch a.Kind {
-				case "nil":
+				switch {
+				case kind == "nil":
 					req.Body = nil
-				case "unreadable":
+				case kind == "unreadable":
 					req.Body = io.NopCloser(errReader{})
+				case chunked:
+					req.Body = io.NopCloser(&slowReader{b: body})
+					req.ContentLength = -1
+					req.TransferEncoding = []string{"chunked"}
 				}
 				wg.Add(1)
 				go func() {
@@ -223,7 +285,10 @@ func runHttp(t *testing.T, interval, timeout int, acts []htAct) (h *htRun, leake
 					res := ""
 					switch {
 					case err == nil:
-						res = "(HROk " + coqRpc(rpc, nil) + ")"
+						h.mu.Lock()
+						big := h.big
+						h.mu.Unlock()
+						res = "(HROk " + coqRpc(rpc, big) + ")"
 					case errors.Is(err, context.Canceled):
 						res = "HRCtx"
 					default:
@@ -336,7 +401,7 @@ func emitHttp(em *Emitter, t *testing.T, idx int, interval, timeout int, acts []
 	}
 	em.Emit(Rec{Idx: idx, Kind: "http-lockstep", Desc: map[string]any{"interval": interval, "timeout": timeout, "acts": acts},
 		Obs: map[string]any{"steps": h.desc, "leaked": leaked},
-		Coq: fmt.Sprintf("CHttp %d %d %d %s", interval, timeout, trEpoch, coqList(h.steps)), Tags: tags})
+		Coq: h.big.coqLet(fmt.Sprintf("CHttp %d %d %d %s", interval, timeout, trEpoch, coqList(h.steps))), Tags: tags})
 	em.Marker("end", idx)
 	return h
 }
@@ -347,6 +412,25 @@ func TestC19Http(t *testing.T) {
 	r := newRand(1903)
 	idx := 0
 	const interval, timeout = 60, 90
+	// (0) first (these are the expensive cases for the Coq side: keep them away from the end-to-end rig's,
+	// which come last, so that they are evaluated in parallel): the upper end of the body range (1 MiB - 4096, 1 MiB - 1, 1 MiB, 1 MiB inside the largest envelope):
+	// posted to a waiting reader; 1 MiB also without a reader (parked, then removed by the cleaner); and
+	// bodies of unknown length that arrive in pieces (chunked), small and 1 MiB
+	preR := []htAct{{Op: "N", C: 0}, {Op: "R", C: 0}}
+	var edge [][]htAct
+	for k := range trEdgeSizes {
+		edge = append(edge, append(append([]htAct{}, preR...), htAct{Op: "P", Kind: fmt.Sprintf("edge:%d", k)}, htAct{Op: "A", D: 60}))
+	}
+	edge = append(edge, append(append([]htAct{}, preR...), htAct{Op: "P", Kind: fmt.Sprintf("edge:%d", len(trEdgeSizes))}, htAct{Op: "A", D: 60}))
+	edge = append(edge, []htAct{{Op: "P", Kind: "edge:2"}, {Op: "A", D: 60}, {Op: "A", D: 60}})
+	edge = append(edge, append(append([]htAct{}, preR...), htAct{Op: "P", Kind: "chunked:ok:a"}, htAct{Op: "P", Kind: "chunked:garbage"}, htAct{Op: "P", Kind: "chunked:empty"}))
+	edge = append(edge, append(append([]htAct{}, preR...), htAct{Op: "P", Kind: "chunked:edge:2"}, htAct{Op: "A", D: 60}))
+	for _, acts := range edge {
+		if want(idx) {
+			emitHttp(em, t, idx, interval, timeout, acts, "edge-size")
+		}
+		idx++
+	}
 	// (1) every request shape on its own, then with a reader waiting
 	shapes := append(append([]string{}, trInvalidKinds...), "ok:a", "ok:b", "ok:c", "ok:d")
 	for _, k := range shapes {
@@ -471,7 +555,50 @@ func TestC19HttpE2E(t *testing.T) {
 		extra = 120
 	}
 	envs := genEnvelopes(r, trBodySizes(), extra)
+	envs = append(envs, genEdgeEnvelopes(newRand(1914))...) // 1 MiB - 4096, 1 MiB - 1, 1 MiB, 1 MiB in the largest envelope
 	var fromA goat.RpcReadWriter
+	// Every envelope is followed by a small marker envelope. The far end reads until the marker: what it
+	// read before it is what arrived of the envelope (a POST is answered only once its envelope has been
+	// handed to a Read, and Writes here are sequential, so arrival is in order). An envelope that is
+	// refused or lost on the way shows as "nothing before the marker" - no timeout decides anything.
+	nmark := uint64(0)
+	isMarker := func(x *Rpc, k uint64) bool {
+		return x.GetHeader().GetMethod() == "/verif.rig/marker" && x.GetId() == k
+	}
+	// exchange writes e and its marker on toB and returns Write's error and what the far end read before the marker
+	exchange := func(write func() error) (error, []*Rpc, error) {
+		nmark++
+		k := nmark
+		type rr struct {
+			got []*Rpc
+			err error
+		}
+		res := make(chan rr, 1)
+		go func() {
+			if fromA == nil {
+				fromA = <-bConns
+			}
+			var got []*Rpc
+			for {
+				rpc, err := fromA.Read(context.Background())
+				if err != nil {
+					res <- rr{got, err}
+					return
+				}
+				if isMarker(rpc, k) {
+					res <- rr{got, nil}
+					return
+				}
+				got = append(got, rpc)
+			}
+		}()
+		werr := write()
+		if err := toB.Write(context.Background(), &Rpc{Id: k, Header: &goatorepo.RequestHeader{Method: "/verif.rig/marker", Source: "A"}}); err != nil {
+			t.Fatalf("write of the marker: %v", err)
+		}
+		x := <-res // blocks for ever if even the marker is lost: the rig's timeout reports it
+		return werr, x.got, x.err
+	}
 	for i := 0; i < len(envs); {
 		group := []genEnv{}
 		var big *bigRef
@@ -491,6 +618,7 @@ func TestC19HttpE2E(t *testing.T) {
 		}
 		em.Marker("begin", idx)
 		var written, oks, read []string
+		sizes := []int{}
 		for _, g := range group {
 			e := proto.Clone(g.E).(*Rpc)
 			if e.Header == nil {
@@ -500,33 +628,110 @@ func TestC19HttpE2E(t *testing.T) {
 				e.Header.Source = "A"
 			}
 			written = append(written, coqRpc(e, big))
-			type rr struct {
-				rpc *Rpc
-				err error
-			}
-			got := make(chan rr, 1)
-			go func() {
-				if fromA == nil {
-					fromA = <-bConns
-				}
-				rpc, err := fromA.Read(context.Background())
-				got <- rr{rpc, err}
-			}()
-			err := toB.Write(context.Background(), e)
-			oks = append(oks, coqBool(err == nil))
-			if err != nil {
-				t.Fatalf("write: %v", err)
-			}
-			x := <-got // the POST has been answered, so the hand-off to this Read has happened
-			if x.err != nil {
+			sizes = append(sizes, proto.Size(e))
+			werr, got, rerr := exchange(func() error { return toB.Write(context.Background(), e) })
+			oks = append(oks, coqBool(werr == nil))
+			if rerr != nil || len(got) != 1 { // nothing (or more than the one envelope) arrived before the marker
 				read = append(read, "None")
 			} else {
-				read = append(read, coqOptRpc(x.rpc, big))
+				read = append(read, coqOptRpc(got[0], big))
 			}
 		}
-		em.Emit(Rec{Idx: idx, Kind: "http-e2e", Desc: map[string]any{"envelopes": len(group)},
+		tags := []string{"http:e2e"}
+		if big != nil && big.cyc {
+			tags = append(tags, "http:e2e-edge-size")
+		}
+		em.Emit(Rec{Idx: idx, Kind: "http-e2e", Desc: map[string]any{"envelopes": len(group), "encoded_sizes": sizes},
 			Obs: map[string]any{"writes_ok": oks},
-			Coq: big.coqLet(fmt.Sprintf("CHttpE2E %s %s %s", coqList(written), coqList(oks), coqList(read))), Tags: []string{"http:e2e"}})
+			Coq: big.coqLet(fmt.Sprintf("CHttpE2E %s %s %s", coqList(written), coqList(oks), coqList(read))), Tags: tags})
+		em.Marker("end", idx)
+		idx++
+	}
+
+	// Raw requests against the far end's listener, framed by hand: a chunked body (unknown length), a
+	// Content-Length larger than what is sent (the connection then ends: unreadable), a Content-Length
+	// smaller than what is sent (net/http hands ServeHTTP the prefix). What ServeHTTP is given to read
+	// is judged by the model's classification; the marker tells what was delivered.
+	small := &Rpc{Id: 77, Header: &goatorepo.RequestHeader{Method: "/s/m", Source: "A", Destination: "srv"}, Body: &goatorepo.Body{Data: []byte("raw-request-payload")}}
+	edge := genEdgeEnvelopes(newRand(1915))[2] // exactly 1 MiB
+	edge.E.Header.Source = "A"
+	type rawCase struct {
+		name string
+		env  genEnv
+		mode string // chunked | long | short
+	}
+	for _, rc := range []rawCase{{"chunked-small", genEnv{E: small}, "chunked"}, {"chunked-1MiB", edge, "chunked"},
+		{"content-length-too-large", genEnv{E: small}, "long"}, {"content-length-too-small", genEnv{E: small}, "short"},
+		{"content-length-too-small-1MiB", edge, "short"}} {
+		if !want(idx) {
+			idx++
+			continue
+		}
+		em.Marker("begin", idx)
+		data, err := proto.Marshal(rc.env.E)
+		if err != nil {
+			t.Fatal(err)
+		}
+		given := "BUnreadable"
+		status := 0
+		_, got, rerr := exchange(func() error {
+			conn, err := net.Dial("tcp", bAddr)
+			if err != nil {
+				t.Fatalf("dial: %v", err)
+			}
+			defer conn.Close()
+			var req bytes.Buffer
+			req.WriteString("POST / HTTP/1.1\r\nHost: " + bAddr + "\r\nContent-Type: application/octet-stream\r\nConnection: close\r\n")
+			switch rc.mode {
+			case "chunked":
+				req.WriteString("Transfer-Encoding: chunked\r\n\r\n")
+				for rest, n := data, 0; len(rest) > 0; n++ {
+					k := 1 + (n*7919)%60000
+					if k > len(rest) {
+						k = len(rest)
+					}
+					fmt.Fprintf(&req, "%x\r\n", k)
+					req.Write(rest[:k])
+					req.WriteString("\r\n")
+					rest = rest[k:]
+				}
+				req.WriteString("0\r\n\r\n")
+				given = "(BBytes " + coqBytesBig(data, rc.env.Big) + ")"
+			case "long":
+				fmt.Fprintf(&req, "Content-Length: %d\r\n\r\n", len(data)+10)
+				req.Write(data)
+			case "short":
+				fmt.Fprintf(&req, "Content-Length: %d\r\n\r\n", len(data)-5)
+				req.Write(data)
+				given = "(BBytes " + coqBytesBig(data[:len(data)-5], rc.env.Big) + ")"
+				if rc.env.Big != nil { // the prefix of the big body is not the bound variable: spell the cut differently
+					given = "(BBytes (firstn (Z.to_nat " + fmt.Sprint(len(data)-5) + ") " + coqBytesBig(data, rc.env.Big) + "))"
+				}
+			}
+			if _, err := conn.Write(req.Bytes()); err != nil {
+				t.Fatalf("raw write: %v", err)
+			}
+			if tc, ok := conn.(*net.TCPConn); ok {
+				tc.CloseWrite() // nothing more will come: a body that is shorter than announced ends here
+			}
+			resp, err := http.ReadResponse(bufio.NewReader(conn), nil)
+			if err != nil {
+				t.Fatalf("raw response: %v", err)
+			}
+			status = resp.StatusCode
+			resp.Body.Close()
+			return nil
+		})
+		delivered := "None"
+		if rerr == nil && len(got) == 1 {
+			delivered = coqOptRpc(got[0], rc.env.Big)
+		} else if len(got) > 1 {
+			delivered = "(Some (mkRpc 0%N None None None None None))" // more than one envelope out of one request: never right
+			status = -status
+		}
+		em.Emit(Rec{Idx: idx, Kind: "http-raw-request", Desc: map[string]any{"what": rc.name, "encoded_size": len(data)},
+			Obs: map[string]any{"status": status, "delivered": len(got)},
+			Coq: rc.env.Big.coqLet(fmt.Sprintf("CHttpRaw %s %d %s", given, status, delivered)), Tags: []string{"http:raw-" + rc.mode}})
 		em.Marker("end", idx)
 		idx++
 	}
